@@ -11,15 +11,11 @@ import (
 )
 
 // EncodeJSONFile 编码 JSON 文件
+//
+// The file is replaced atomically: the new content is written to a temporary
+// sibling, synced, and renamed over path. A crash at any moment leaves either
+// the complete previous file or the complete new one, never a truncated one.
 func EncodeJSONFile(path string, obj interface{}) error {
-	f, err := os.OpenFile(path, os.O_CREATE|os.O_TRUNC|os.O_WRONLY, os.ModePerm)
-	if err != nil {
-		return err
-	}
-
-	defer f.Close()
-	verifIOPoint("opened", f, nil)
-
 	var formatted bytes.Buffer
 	body, err := json.Marshal(obj)
 	if err != nil {
@@ -30,15 +26,35 @@ func EncodeJSONFile(path string, obj interface{}) error {
 		return err
 	}
 
+	tmp := path + ".tmp"
+	f, err := os.OpenFile(tmp, os.O_CREATE|os.O_TRUNC|os.O_WRONLY, os.ModePerm)
+	if err != nil {
+		return err
+	}
+	verifIOPoint("opened", f, nil)
+
 	verifIOPoint("before-write", f, formatted.Bytes())
 	if _, err := f.Write(formatted.Bytes()); err != nil {
+		f.Close()
+		os.Remove(tmp)
 		return err
 	}
 	verifIOPoint("written", f, nil)
 	if err := f.Sync(); err != nil {
+		f.Close()
+		os.Remove(tmp)
 		return err
 	}
 	verifIOPoint("synced", f, nil)
+	if err := f.Close(); err != nil {
+		os.Remove(tmp)
+		return err
+	}
 
+	if err := os.Rename(tmp, path); err != nil {
+		os.Remove(tmp)
+		return err
+	}
+	verifIOPoint("renamed", nil, nil)
 	return nil
 }
